@@ -79,6 +79,9 @@ pub struct VelModel {
     /// over the way its documentation describes (get_state / load_from_state).
     #[serde(default)]
     pub approver: bool,
+    /// over the transactional cloud store (prepare / commit after every request)
+    #[serde(default)]
+    pub cloud: bool,
 }
 
 fn approver_spec() -> VelocityControlSpec {
@@ -158,12 +161,13 @@ impl Model for VelModel {
     }
 
     fn name(&self) -> String {
-        format!("nodevel(ops<={}{}{}{})", self.max_ops, if self.monitors { ",monitors" } else { "" }, if self.onchain { ",on-chain validator factory" } else { "" }, if self.approver { ",velocity approver in front" } else { "" })
+        format!("nodevel(ops<={}{}{}{})", self.max_ops, if self.monitors { ",monitors" } else { "" }, if self.onchain { ",on-chain validator factory" } else { "" }, if self.approver { ",velocity approver in front" } else { "" }) + if self.cloud { ",cloud-store" } else { "" }
     }
 
     fn init(&self) -> VState {
         let mut c = cfg();
         c.onchain = self.onchain;
+        c.cloud = self.cloud;
         if self.approver {
             c.policy.as_mut().unwrap().global_velocity_control.limit_msat = 4 * PAY_LIMIT;
         }
@@ -360,6 +364,9 @@ impl Model for VelModel {
                 }
             }
         }
+        if !matches!(op, Op::Restart | Op::Advance(_)) {
+            end_cloud_request(s.w(), kind, &tag, mon, vios);
+        }
         if mon && !matches!(op, Op::Restart | Op::Advance(_)) {
             if tag.starts_with("err:") {
                 let after = s.w().snapshot();
@@ -386,10 +393,13 @@ pub fn explore(tier: Tier, monitors: bool, wall_s: f64) -> VelRun {
     let main_depth = if monitors { tier.pick(3, 5) } else { tier.pick(5, 7) };
     let mut cfgs = vec![];
     if !monitors {
-        cfgs.push(VelModel { max_ops: tier.pick(3, 5), monitors, onchain: true, approver: false });
-        cfgs.push(VelModel { max_ops: tier.pick(4, 6), monitors, onchain: false, approver: true });
+        cfgs.push(VelModel { max_ops: tier.pick(3, 5), monitors, onchain: true, approver: false, cloud: false });
+        cfgs.push(VelModel { max_ops: tier.pick(4, 6), monitors, onchain: false, approver: true, cloud: false });
     }
-    cfgs.push(VelModel { max_ops: main_depth, monitors, onchain: false, approver: false });
+    if monitors {
+        cfgs.push(VelModel { max_ops: tier.pick(3, 4), monitors, onchain: false, approver: false, cloud: true });
+    }
+    cfgs.push(VelModel { max_ops: main_depth, monitors, onchain: false, approver: false, cloud: false });
     let n = cfgs.len();
     for (i, m) in cfgs.into_iter().enumerate() {
         let per = (wall_s - t0.elapsed().as_secs_f64()).max(1.0) / (n - i) as f64 * if i + 1 < n { 0.6 } else { 1.0 };
